@@ -73,7 +73,8 @@ MANIFEST = {'note': 'Trusted: Lean 4.33 kernel (axioms propext, Classical.choice
          'above and one below has an even number >= 2 of crossings (level_crossing_exists); line_intersection of an edge with '
          'the scan segment reports exactly that crossing abscissa; no candidate is on the boundary and the midpoint of the '
          'first two crossings is Inside. Hence interior_point is Inside for every hole-free polygon whose exterior ring is '
-         'ringSimple, with no further hypothesis (interior_strict_ringSimple, interior_polygon_inside_simple; a ringSimple '
+         'ringSimple, with no further hypothesis (interior_strict_ringSimple, interior_polygon_inside_simple, and interior_multipolygon_inside_simple for '
+         'MultiPolygons of such members; a ringSimple '
          'ring has pairwise distinct crossings and a bounding box of positive width and height), more generally when the '
          'hit abscissae are pairwise distinct (interior_strict_simple), and for polygons with holes when moreover hole '
          'coordinates lie in the shell box and every hole crossing has a shell crossing to its left / is wound by the '
